@@ -38,8 +38,13 @@ CompleteFrame(b) == LET d == DecVarIntAt(b, 2) IN Len(b) >= 2 /\ d.st = "ok" /\ 
 \* a non-minimal variable byte integer ends with a continuation byte followed by 0x00; frames that contain that
 \* byte pair ANYWHERE are outside C04's quantifier (conservative)
 MaybeNonMinimal(b) == \E i \in 1..(Len(b) - 1) : b[i] >= 128 /\ b[i + 1] = 0
+\* Frames built by the harness from labelled segments (valid encodings, legal spellings, catalogue edits that keep
+\* every field where it was) contain minimal var-ints by construction; for byte-level mutations and edits that
+\* re-interpret the body (another type nibble, another remaining length) the conservative byte-pair test decides.
+Reinterpreting == {"mutation", "hdr_type", "rl_short", "rl_long", "varint5"}
+InQuantifier(e) == CompleteFrame(e.bytes) /\ (e.origin \in Reinterpreting => ~MaybeNonMinimal(e.bytes))
 OK04(e) ==
-    (CompleteFrame(e.bytes) /\ ~MaybeNonMinimal(e.bytes)) =>
+    InQuantifier(e) =>
         LET s == StrictParse(e.fam, e.bytes) IN
         IF s.st = "ok" THEN e.poll.k = "ok" /\ e.poll.v = s.v /\ e.poll.total = Len(e.bytes)
         ELSE e.poll.k = "err"
